@@ -33,6 +33,7 @@ type FuncContract struct {
 	Mode       string
 	Assigns    []string
 	HasAssigns bool
+	FreshArgs  [][2]string // fresharg callee k[.field]: that argument of every such call is storage this function owns
 	ReadOnly   []string // readonly p: the function never writes into the backing storage of slice parameter p
 	CallReq    map[string][]Clause // callee text -> required condition at each such call
 	Asserts    []Clause
@@ -327,6 +328,13 @@ func (pc *PkgContracts) parseFile(path string) error {
 						cur.FreshField[idx] = field
 					}
 				}
+			case "fresharg":
+				// fresharg <callee> <k>[.field]
+				parts := strings.Fields(rest)
+				if len(parts) != 2 {
+					return fmt.Errorf("%s:%d: fresharg wants '<callee> <k>[.field]'", path, l.line)
+				}
+				cur.FreshArgs = append(cur.FreshArgs, [2]string{parts[0], parts[1]})
 			case "readonly":
 				for _, k := range strings.FieldsFunc(rest, func(r rune) bool { return r == ',' || r == ' ' }) {
 					cur.ReadOnly = append(cur.ReadOnly, k)
